@@ -4,7 +4,8 @@
   Property theorems only.  Model: Cello/Config.lean.  Source-derived tables: CelloGen/Cfg.lean (translate/g_cfg.py).
   Helper lemmas: CelloProofs/Lemmas/Cfg.lean, CfgFull.lean, CfgKeep.lean (keep programs: containers as the sole path to
   collector-managed objects; the collector is Cello/Heap.lean's, proved complete in C01), CfgGuard.lean (guards over the
-  allocation class along the functions an in-place edit runs).
+  allocation class along the functions an in-place edit runs), CfgType.lean (run-time type objects: the index expressions of
+  src/Type.c evaluated under both values of the cache switch; model Cello/ConfigType.lean on top of C08's Cello/Dispatch.lean).
 -/
 import Cello.Config
 import CelloGen.Cfg
@@ -12,6 +13,8 @@ import CelloProofs.Lemmas.Cfg
 import CelloProofs.Lemmas.CfgFull
 import CelloProofs.Lemmas.CfgKeep
 import CelloProofs.Lemmas.CfgGuard
+import Cello.ConfigType
+import CelloProofs.Lemmas.CfgType
 
 namespace Cello.Config
 open CelloGen.Cfg
@@ -456,3 +459,219 @@ example :
   decide +kernel
 
 end Cello.Config
+
+/-! ## run-time type objects: the layout differs between configurations, what a program can observe does not
+
+  `new(Type, name, size, instances…)`: with the method cache compiled in, a type object starts with `CELLO_CACHE_NUM = 18` cache
+  words and its instance triples start at cell `CELLO_NBUILTINS = 8`; with `CELLO_CACHE` predefined there are no cache words and
+  the triples start at cell 2.  Every index expression of src/Type.c is regenerated as a term (`CelloGen.Cfg.typeNewIx`,
+  `builtinNameIdx`, `builtinSizeIdx`, `scanStart1/2`, `typeAllocCells`, `nBuiltinsDef`) and evaluated by `Cello/ConfigType.lean`
+  under the constants of each configuration; the theorems below are about these generated terms, for BOTH values of the switch. -/
+
+namespace Cello.CfgType
+open Cello.Config (Cfg cacheNum)
+open Cello.Dispatch
+open CelloGen.Cfg (TExpr TypeNewIx typeNewIx)
+
+/-- **The index arithmetic of src/Type.c is right in every configuration.**  For all eight configurations (both values of
+    `CELLO_CACHE_NUM` read from Cello.h): the cache words are whole cells and `CELLO_NBUILTINS` is two cells after them; the
+    `Type_Cache_Entry` indices compiled in are distinct and below `CELLO_CACHE_NUM`; `Type_Alloc` reserves
+    `CELLO_NBUILTINS + CELLO_MAX_INSTANCES + 1` cells; and — for EVERY `len(args)` and every value of the loop variable — each
+    loop bound and each store index of `Type_New` (cache clear, `__Name`, `__Size`, instance triples, terminator) and each cell
+    the readers use (`Type_Builtin_Name`, `Type_Builtin_Size`, both walks of `Type_Scan`) evaluates to the cell the layout of
+    THAT configuration puts it in.  An index expression that is right for one value of the switch only (`t[nargs]` for the
+    terminator, `t[7]` for the size, `self + 8` for the scan) makes this theorem fail for the other value. -/
+theorem C18_type_layout_current_source (cfg : Cfg) : SrcOK cfg := by
+  obtain ⟨checks, cache, gc⟩ := cfg
+  cases cache
+  · -- CELLO_CACHE predefined: no cache words
+    have hcn : cacheNum ⟨checks, false, gc⟩ = CelloGen.Cfg.cacheNumOff := rfl
+    refine ⟨⟨by rw [show (layoutOf ⟨checks, false, gc⟩).cacheNum = CelloGen.Cfg.cacheNumOff from rfl]; decide,
+             by rw [show (layoutOf ⟨checks, false, gc⟩).nBuiltins = nbOf CelloGen.Cfg.cacheNumOff from rfl,
+                    show (layoutOf ⟨checks, false, gc⟩).cacheNum = CelloGen.Cfg.cacheNumOff from rfl]; decide⟩,
+            ⟨by simp [slotsOf], by simp [slotsOf]⟩, ?_, ?_, ?_⟩
+    · show cellsOf ⟨checks, false, gc⟩ = (layoutOf ⟨checks, false, gc⟩).cells
+      unfold cellsOf Layout.cells layoutOf envOf
+      rw [hcn]; decide
+    · constructor <;> first | rfl | (intros; (simp only [envOf, hcn, typeNewIx, eval, CelloGen.Cfg.cacheNumOff]) <;> omega)
+    · constructor <;> ((simp only [envOf, hcn, readersSrc, CelloGen.Cfg.builtinNameIdx, CelloGen.Cfg.builtinSizeIdx,
+        CelloGen.Cfg.scanStart1, CelloGen.Cfg.scanStart2, eval, CelloGen.Cfg.cacheNumOff]) <;> omega)
+  · -- default: the cache compiled in
+    have hcn : cacheNum ⟨checks, true, gc⟩ = CelloGen.Cfg.cacheNumOn := rfl
+    refine ⟨⟨by rw [show (layoutOf ⟨checks, true, gc⟩).cacheNum = CelloGen.Cfg.cacheNumOn from rfl]; decide,
+             by rw [show (layoutOf ⟨checks, true, gc⟩).nBuiltins = nbOf CelloGen.Cfg.cacheNumOn from rfl,
+                    show (layoutOf ⟨checks, true, gc⟩).cacheNum = CelloGen.Cfg.cacheNumOn from rfl]; decide⟩,
+            ⟨?_, ?_⟩, ?_, ?_, ?_⟩
+    · show ((CelloGen.Cfg.cacheSlots.map (fun p => (p.1, (⟨0, p.2⟩ : Cls)))).map Prod.fst).Nodup
+      decide
+    · show ∀ s ∈ CelloGen.Cfg.cacheSlots.map (fun p => (p.1, (⟨0, p.2⟩ : Cls))), s.1 < CelloGen.Cfg.cacheNumOn
+      decide
+    · show cellsOf ⟨checks, true, gc⟩ = (layoutOf ⟨checks, true, gc⟩).cells
+      unfold cellsOf Layout.cells layoutOf envOf
+      rw [hcn]; decide
+    · constructor <;> first | rfl | (intros; (simp only [envOf, hcn, typeNewIx, eval, CelloGen.Cfg.cacheNumOn]) <;> omega)
+    · constructor <;> ((simp only [envOf, hcn, readersSrc, CelloGen.Cfg.builtinNameIdx, CelloGen.Cfg.builtinSizeIdx,
+        CelloGen.Cfg.scanStart1, CelloGen.Cfg.scanStart2, eval, CelloGen.Cfg.cacheNumOn]) <;> omega)
+
+/-- **`Type_New` and the readers of the source, evaluated under a configuration, are C08's word-level `Type_New` and record
+    view for the layout of that configuration** — on every storage of the size `Type_Alloc` reserves there, whatever it
+    holds, for every name, size and instance list within `CELLO_MAX_INSTANCES`.  (C08 proves its theorems for an arbitrary
+    layout satisfying `LayoutOK`; this is what lets them speak about the cache-off build as well.) -/
+theorem C18_type_new_source_as_layout (cfg : Cfg) (mem : List Word) (name : String) (size : Nat) (es : List (String × Inst))
+    (hn : es.length ≤ CelloGen.Cfg.maxInstances) (hlen : mem.length = 3 * cellsOf cfg) :
+    typeNewSrc cfg mem name size es = typeNewRaw (layoutOf cfg) mem name size es ∧
+    ∀ hdr sent m, ofRawSrc cfg hdr sent m = Store.ofRaw (layoutOf cfg) hdr sent m := by
+  have h := C18_type_layout_current_source cfg
+  refine ⟨?_, fun hdr sent m => ofRawWith_eq h.rd h.layout hdr sent m⟩
+  have hc : cellsOf cfg = (layoutOf cfg).cells := h.cells
+  refine typeNewWith_eq_raw h.ix h.layout mem name size es hn ?_
+  rw [hlen, hc]; unfold Layout.cells
+  have : (layoutOf cfg).maxInstances = CelloGen.Cfg.maxInstances := rfl
+  omega
+
+/-- **A run-time type is the same type in every build.**  In ANY configuration, on ANY storage of `Type_Alloc`'s size (fresh
+    from `calloc`, or a previous incarnation with warmed cache words, memoised class pointers and more triples than the new
+    list), `Type_New` of the source succeeds without a store outside the storage and the readers of the source see: the name
+    and the size that were passed, the instance triples in argument order — all of them, none twice, nothing after them —, every
+    cache word of that configuration empty, and the lookup invariant relative to the declaration `declOf es`. -/
+theorem C18_type_new_any_storage_any_config (cfg : Cfg) (hdr sent : Bool) (mem : List Word) (name : String) (size : Nat)
+    (es : List (String × Inst)) (hn : es.length ≤ CelloGen.Cfg.maxInstances) (hlen : mem.length = 3 * cellsOf cfg) :
+    ∃ s, (typeNewSrc cfg mem name size es).2 = .ok () ∧
+      ofRawSrc cfg hdr sent (typeNewSrc cfg mem name size es).1 = some s ∧
+      s.name = name ∧ s.size = size ∧ s.trec = mkType (cacheNum cfg) hdr es sent ∧
+      StoreOK (layoutOf cfg) (declOf es) (slotsOf cfg) s := by
+  have h := C18_type_layout_current_source cfg
+  have e := C18_type_new_source_as_layout cfg mem name size es hn hlen
+  have hlen' : mem.length = 3 * (layoutOf cfg).cells := by rw [hlen, h.cells]
+  have hfit : 3 * ((layoutOf cfg).nBuiltins + es.length + 1) ≤ mem.length := by
+    rw [hlen']; unfold Layout.cells
+    have : (layoutOf cfg).maxInstances = CelloGen.Cfg.maxInstances := rfl
+    omega
+  have raw := typeNewRaw_eq_toRaw h.layout hdr sent mem name size es hn hfit
+  have sp := (constructAt_spec h.layout (slotsOf cfg) hdr sent mem name size es hlen').1 hn
+  refine ⟨freshStore (layoutOf cfg) hdr sent name size es (mem.drop (3 * ((layoutOf cfg).nBuiltins + es.length + 1))), ?_, ?_, rfl, rfl, rfl, sp.2⟩
+  · rw [e.1, raw]
+  · rw [e.1, e.2, raw]
+    exact ofRaw_toRaw h.layout _ (by simp [freshStore, mkType, layoutOf])
+
+/-- **C18 for run-time types (`C18_type_record_config_independent`).**  Take ANY two configurations (cache on / off, checks
+    on / off, collector on / off), the storage `Type_Alloc` reserves in each (any contents), one constructor call
+    `new(Type, name, size, instances…)` with any instance list within `CELLO_MAX_INSTANCES` (0, 4, 5, 6, 12, 256 … instances,
+    duplicate classes, any order), and ANY in-contract history of lookups — `type_instance`/`instance`,
+    `type_implements`/`implements`, `type_method`/`method`, `type_implements_method`/`implements_method` for cached and uncached,
+    declared and undeclared classes, cold or warm — interleaved with re-constructions in place with other instance lists.
+    Both builds construct a well-formed type object with the SAME name and size, and answer EVERY lookup of the history
+    identically: with what the instance list in force declares (`specLife`).  The objects differ in layout (18 cache words
+    and triples from cell 8, or none and from cell 2); no program can tell. -/
+theorem C18_type_record_config_independent (c₁ c₂ : Cfg) (mem₁ mem₂ : List Word)
+    (h₁ : mem₁.length = 3 * cellsOf c₁) (h₂ : mem₂.length = 3 * cellsOf c₂)
+    (name : String) (size : Nat) (es : List (String × Inst)) (hn : es.length ≤ CelloGen.Cfg.maxInstances)
+    (ops : List LOp) (hops : ∀ op ∈ ops, LOp.inContract op = true) :
+    ∃ s₁ s₂,
+      (typeNewSrc c₁ mem₁ name size es).2 = .ok () ∧ ofRawSrc c₁ true false (typeNewSrc c₁ mem₁ name size es).1 = some s₁ ∧
+      (typeNewSrc c₂ mem₂ name size es).2 = .ok () ∧ ofRawSrc c₂ true false (typeNewSrc c₂ mem₂ name size es).1 = some s₂ ∧
+      s₁.name = name ∧ s₂.name = name ∧ s₁.size = size ∧ s₂.size = size ∧
+      (runLifeSrc c₁ s₁ ops).2 = (runLifeSrc c₂ s₂ ops).2 ∧
+      (runLifeSrc c₁ s₁ ops).2 = specLife CelloGen.Cfg.maxInstances false (declOf es) ops := by
+  obtain ⟨s₁, a1, b1, n1, z1, t1, ok1⟩ := C18_type_new_any_storage_any_config c₁ true false mem₁ name size es hn h₁
+  obtain ⟨s₂, a2, b2, n2, z2, t2, ok2⟩ := C18_type_new_any_storage_any_config c₂ true false mem₂ name size es hn h₂
+  have k₁ := C18_type_layout_current_source c₁
+  have k₂ := C18_type_layout_current_source c₂
+  have r1 : (runLifeSrc c₁ s₁ ops).2 = specLife CelloGen.Cfg.maxInstances false (declOf es) ops := by
+    rw [runLifeSrc_eq k₁ ops _ s₁ hops ok1, (runLife_spec k₁.layout k₁.slots ops _ s₁ ok1).1, t1]; rfl
+  have r2 : (runLifeSrc c₂ s₂ ops).2 = specLife CelloGen.Cfg.maxInstances false (declOf es) ops := by
+    rw [runLifeSrc_eq k₂ ops _ s₂ hops ok2, (runLife_spec k₂.layout k₂.slots ops _ s₂ ok2).1, t2]; rfl
+  exact ⟨s₁, s₂, a1, b1, a2, b2, n1, n2, z1, z2, by rw [r1, r2], r1⟩
+
+/-- **What the driver prints for a construction is the same in every configuration** — the executable workload model
+    (`step`, the function lean/Driver/Cfg.lean runs in lock step under all eight configurations and the harness transcript is
+    compared with) tied to the theorems above: for every `ty T ROUTE NAME SIZE INST*` line — any slot, route, name, size and
+    list of harness instances, refused or not — the observation (name and `__Size` cell as the readers see them, `size(T)`
+    through the `Size` instance, `type_implements` for each of the 18 probe classes) computed THROUGH the word-level object of
+    configuration `c₁` equals the one computed through the object of `c₂`; and when the line is in contract it is the line the
+    instance list itself dictates. -/
+theorem C18_ty_line_config_independent (c₁ c₂ : Cfg) (t route : Nat) (name : String) (size : Nat) (insts : List Nat) :
+    (step c₁ {} (.ty t route name size insts)).map (·.2) = (step c₂ {} (.ty t route name size insts)).map (·.2) ∧
+    ((step c₁ {} (.ty t route name size insts)).isSome →
+      (step c₁ {} (.ty t route name size insts)).map (·.2) =
+        some (.ty name size (match memberOf (declOf (instsOf insts)) "Size" 0 with | some _ => 32 | none => size)
+          (probeClasses.map (fun c => (declOf (instsOf insts) c).isSome)))) := by
+  have key : ∀ cfg : Cfg, ¬ (t ≥ maxTy || route > 5 || (({} : RSt).ty? t).isSome || !validName name || !validSize size
+        || insts.length > maxInstsLine || insts.any (fun k => k ≥ table.length)) = true →
+      (step cfg {} (.ty t route name size insts)).map (·.2) =
+        some (.ty name size (match memberOf (declOf (instsOf insts)) "Size" 0 with | some _ => 32 | none => size)
+          (probeClasses.map (fun c => (declOf (instsOf insts) c).isSome))) := by
+    intro cfg hg
+    have hlen : insts.length ≤ CelloGen.Cfg.maxInstances := by
+      have h256 : CelloGen.Cfg.maxInstances = maxInstsLine := by decide
+      rw [h256]
+      simp only [Bool.or_eq_true, decide_eq_true_eq, not_or] at hg
+      omega
+    have hn : (instsOf insts).length ≤ CelloGen.Cfg.maxInstances := Nat.le_trans (instsOf_length_le insts) hlen
+    obtain ⟨s, a, b, n1, z1, _, ok⟩ := C18_type_new_any_storage_any_config cfg true false (zeroStorage cfg) name size
+      (instsOf insts) hn (by simp [zeroStorage])
+    have hs := (C18_type_layout_current_source cfg).slots
+    have d := describe_spec hs ok.inv
+    simp only [step]
+    rw [if_neg hg]
+    simp only [a, b, Option.map_some, d, n1, z1]
+    rfl
+  by_cases hg : (t ≥ maxTy || route > 5 || (({} : RSt).ty? t).isSome || !validName name || !validSize size
+        || insts.length > maxInstsLine || insts.any (fun k => k ≥ table.length)) = true
+  · have r : ∀ cfg : Cfg, step cfg {} (.ty t route name size insts) = none := by
+      intro cfg; simp only [step]; rw [if_pos hg]
+    rw [r c₁, r c₂]
+    exact ⟨rfl, fun h => by simp at h⟩
+  · exact ⟨by rw [key c₁ hg, key c₂ hg], fun _ => key c₁ hg⟩
+
+/-- the table of index expressions with the terminator written at `t[len(args)]` — the hoisted-local variant — and everything
+    else as in the current source -/
+def ixTermAtNargs : TypeNewIx := { typeNewIx with termIdx := .nargs }
+
+/-- **An index that is right in one configuration only is refuted in the other.**  `t[nargs]` for the terminator: with the cache
+    compiled out (`CELLO_NBUILTINS = 2`) it IS the right cell for every instance list (`IxCanon`), so the cache-off build behaves
+    as before; in the default build the terminator lands six cells early: with four instances the readers find no name
+    (the `__Name` cell is wiped: the storage no longer reads back as a type object), with five no size, with six and with twelve
+    the type has lost every instance — while `Type_New` of the current source builds all of them in both builds. -/
+theorem C18_terminator_at_nargs_refuted :
+    (∀ cfg : Cfg, cfg.cache = false → IxCanon ixTermAtNargs cfg) ∧
+    ofRawSrc Cfg.default true false (typeNewWith ixTermAtNargs Cfg.default (zeroStorage Cfg.default) "Cell" 16 (instsOf [0, 1, 2, 3])).1 = none ∧
+    ofRawSrc Cfg.default true false (typeNewWith ixTermAtNargs Cfg.default (zeroStorage Cfg.default) "Cell" 16 (instsOf [0, 1, 2, 3, 4])).1 = none ∧
+    (ofRawSrc Cfg.default true false (typeNewWith ixTermAtNargs Cfg.default (zeroStorage Cfg.default) "Cell" 16 (instsOf [0, 1, 2, 3, 4, 5])).1).map
+      (fun s => (s.name, s.size, s.trec.entries.length)) = some ("Cell", 16, 0) ∧
+    (ofRawSrc Cfg.default true false (typeNewSrc Cfg.default (zeroStorage Cfg.default) "Cell" 16 (instsOf [0, 1, 2, 3, 4, 5])).1).map
+      (fun s => (s.name, s.size, s.trec.entries.length)) = some ("Cell", 16, 6) ∧
+    (ofRawSrc ⟨true, false, true⟩ true false (typeNewWith ixTermAtNargs ⟨true, false, true⟩ (zeroStorage ⟨true, false, true⟩) "Cell" 16 (instsOf [0, 1, 2, 3, 4, 5])).1).map
+      (fun s => (s.name, s.size, s.trec.entries.length)) = some ("Cell", 16, 6) := by
+  refine ⟨?_, by decide +kernel, by decide +kernel, by decide +kernel, by decide +kernel, by decide +kernel⟩
+  intro cfg hc
+  obtain ⟨checks, cache, gc⟩ := cfg
+  simp only at hc
+  subst hc
+  have hcn : cacheNum ⟨checks, false, gc⟩ = CelloGen.Cfg.cacheNumOff := rfl
+  have hnb : nbOf CelloGen.Cfg.cacheNumOff = 2 := by decide
+  constructor <;> first | rfl | (intros; (simp only [envOf, hcn, hnb, ixTermAtNargs, typeNewIx, eval]) <;> (try simp only [CelloGen.Cfg.cacheNumOff]) <;> omega)
+
+/-- the workload of the driver is not vacuous and is the same in the cache-on and the cache-off model: a type with twelve instances
+    (a class twice: the first one counts), made by `new_root`, queried, used through objects, re-constructed in place with one
+    instance, asked again -/
+example :
+    let prog : List ROp :=
+      [.ty 0 2 "Cell" 16 [0, 1, 16, 2, 3, 4, 5, 6, 7, 9, 11, 12], .tyq 0 "Hash", .tyq 0 "Iter", .ob 1 0 0 7, .ob 2 0 1 9, .oq 1 .hash,
+       .oq 1 (.cmp 2), .oq 1 .show, .oq 1 (.copy 3), .oq 3 .cint, .od 1, .od 2, .od 3, .tyre 0 "Foo" 24 [4], .tyshow 0, .ob 1 0 0 5,
+       .oq 1 .cint, .oq 1 .hash, .oq 1 .show]
+    let run (cfg : Cfg) := prog.foldl (fun (acc : RSt × List (Option RObs)) op =>
+        match step cfg acc.1 op with
+        | some r => (r.1, acc.2 ++ [some r.2])
+        | none => (acc.1, acc.2 ++ [none])) (({} : RSt), [])
+    (run Cfg.default).2 = (run ⟨true, false, true⟩).2 ∧
+    (run Cfg.default).2 =
+      [some (.ty "Cell" 16 16 [true, true, true, true, true, true, true, true, false, true, false, true, true, false, false, false, false, false]),
+       some (.tyq true (some 16) [some true]), some (.tyq false none []),
+       some (.ob 7 "Cell" 16), some (.ob 9 "Cell" 16), some (.val "hash" 9007), some (.val "cmp" 1), some (.showRt 7),
+       some (.val "copy" 12), some (.val "cint" 2012), some (.od true), some (.od true), some (.od true),
+       some (.ty "Foo" 24 24 [false, false, false, false, true, false, false, false, false, false, false, false, false, false, false, false, false, false]),
+       some (.tyshow "Foo"), some (.ob 0 "Foo" 24), some (.val "cint" 2000), some .hashDefault, some (.showDefault "Foo")] := by
+  decide +kernel
+
+end Cello.CfgType
